@@ -225,7 +225,8 @@ def main():
     # findings
     findings = [f for f in load_findings() if f.get('property') == args.id]
     known = {f['mechanism']: f for f in findings if f.get('status') == 'known'}
-    rep_dir = VERIF / 'replays' / args.id
+    # runs that do not rewrite the evidence (validation against scratch worktrees) keep their witnesses out of the committed tree
+    rep_dir = (VERIF / '.build' / 'replays_tmp' / args.id) if args.no_evidence else (VERIF / 'replays' / args.id)
     if rep_dir.exists():
         shutil.rmtree(rep_dir, ignore_errors=True)
     lines = []
